@@ -7,6 +7,7 @@
 (*   store0 - the store at the start of the running expansion (pre-state of the emitted edge)        *)
 (*   phase  - "idle" (between expansions) | "scan"                                                   *)
 (*   envid  - the environment of the running expansion                                               *)
+(*   reg    - lifecycle state: the built-ins the application has registered between expansions           *)
 (*   stack  - frames; the last one is being scanned.  Frame 1 is the text given by the caller, each  *)
 (*            further frame is the argument of a %name( ... ) call, expanded innermost first.        *)
 (*            frame = [txt, pos (characters consumed), outs (SET of acceptable outputs so far;       *)
@@ -20,7 +21,8 @@
 (* still executed for memory safety, termination, boundedness and purity).                           *)
 EXTENDS Integers, Sequences, FiniteSets, TLC, Json
 
-CONSTANTS Starts(_),      \* store -> set of <<env id, text>> offered to OpStart (model bound only)
+CONSTANTS Starts(_, _),   \* (store, registered built-ins) -> set of <<env id, text>> offered to OpStart (model bound only)
+          RegOffer,       \* sequence of [name, kind]: application built-ins the program may register, in this order (model bound)
           EnvGet(_, _),   \* (env id, name) -> value of the environment variable; <<>> when unset or empty
           Limit,          \* longest result (CONFIG_BUFF - 1)
           NameMax,        \* longest $-name (127)
@@ -28,8 +30,9 @@ CONSTANTS Starts(_),      \* store -> set of <<env id, text>> offered to OpStart
                                        \* environment of the built-ins, like the variables)
           Obs(_, _, _, _) \* observation hook (op, args, ret, post)
 
-VARIABLES store, store0, phase, envid, stack
-vars == <<store, store0, phase, envid, stack>>
+VARIABLES store, store0, phase, envid, stack,
+          reg      \* application built-ins registered so far (spifconf_register_builtin), in table order: [name, kind]
+vars == <<store, store0, phase, envid, stack, reg>>
 
 ------------------------------------------------------------------------------------------
 (* characters *)
@@ -108,7 +111,7 @@ Sorted(st) == \A i \in 1 .. Len(st) - 1 : SeqLess(st[i][1], st[i + 1][1])
 
 ------------------------------------------------------------------------------------------
 (* frames *)
-Frame(t, fn) == [txt |-> t, pos |-> 0, outs |-> {<<>>}, sq |-> FALSE, dq |-> FALSE, fn |-> fn, hi |-> 0, trunc |-> FALSE]
+Frame(t, fn, app) == [txt |-> t, pos |-> 0, outs |-> {<<>>}, sq |-> FALSE, dq |-> FALSE, fn |-> fn, app |-> app, hi |-> 0, trunc |-> FALSE]
 Depth == Len(stack)
 Top == stack[Depth]
 Finished(f) == f.pos = Len(f.txt) \/ \E o \in f.outs : Len(o) >= Limit      \* the scan loop's condition
@@ -122,16 +125,16 @@ Adv(f, n, s, h) == [f EXCEPT !.pos = f.pos + n,
                              !.trunc = f.trunc \/ \E o \in f.outs : Len(o) + Len(s) > Limit,
                              !.hi = Max2(f.hi, h)]
 SetTop(nf) == stack' = [stack EXCEPT ![Depth] = nf]
-Keep == /\ store' = store /\ store0' = store0 /\ phase' = phase /\ envid' = envid
+Keep == /\ store' = store /\ store0' = store0 /\ phase' = phase /\ envid' = envid /\ reg' = reg
 
 \* X: the functional result of this input is not claimed; the expansion ends here as far as the model is concerned
-GiveUp(why) == /\ phase' = "idle" /\ stack' = <<>> /\ store' = store0 /\ store0' = store0 /\ envid' = envid
+GiveUp(why) == /\ phase' = "idle" /\ stack' = <<>> /\ store' = store0 /\ store0' = store0 /\ envid' = envid /\ reg' = reg
                /\ Obs("expand", <<envid, stack[1].txt>>, [claimed |-> FALSE, why |-> why, outs |-> {}, trunc |-> FALSE], store0)
 
 ------------------------------------------------------------------------------------------
 (* actions *)
 OpStart(e, t) == /\ phase = "idle" /\ ~Excluded(t)
-                 /\ phase' = "scan" /\ envid' = e /\ stack' = <<Frame(t, "top")>> /\ store0' = store /\ store' = store
+                 /\ phase' = "scan" /\ envid' = e /\ stack' = <<Frame(t, "top", 0)>> /\ store0' = store /\ store' = store /\ reg' = reg
 
 \* a run of ordinary characters is copied (maximal within a 512-character window, cut at the limit)
 OpPlain == /\ Scanning /\ Cur \notin Special
@@ -201,19 +204,25 @@ OpQuote(kind) ==
 OpSingleInDouble == /\ Scanning /\ Cur = SQ /\ Top.dq /\ GiveUp("single-quote-inside-double")
 
 \* S: %name(args): the argument is expanded first (innermost first), then the built-in is applied (OpReturn)
+\* The function table: the core built-ins, then the application's in registration order; the first entry whose name (any
+\* case) is followed by "(" is called.  Names are distinct (OpRegister), so at most one entry matches.
+AppIdx == IF Scanning /\ Cur = PCT THEN {i \in 1 .. Len(reg) : NameAt(Top.txt, Top.pos + 2, reg[i].name)} ELSE {}
 CallName == IF Scanning /\ Cur = PCT /\ \E fn \in FnNames : NameAt(Top.txt, Top.pos + 2, Claimed[fn])
-            THEN CHOOSE fn \in FnNames : NameAt(Top.txt, Top.pos + 2, Claimed[fn]) ELSE "none"
-CallPush(fn, open, close) ==                 \* open = index of "(", close = index of the matching ")" (passed in: evaluated once)
+            THEN CHOOSE fn \in FnNames : NameAt(Top.txt, Top.pos + 2, Claimed[fn])
+            ELSE IF AppIdx # {} THEN "app" ELSE "none"
+CallApp == IF CallName = "app" THEN SetMin(AppIdx) ELSE 0
+CallLen == IF CallName = "app" THEN Len(reg[CallApp].name) ELSE Len(Claimed[CallName])      \* only used when CallName # "none"
+CallPush(fn, app, open, close) ==            \* open = index of "(", close = index of the matching ")" (passed in: evaluated once)
     /\ close # 0
     /\ stack' = [stack EXCEPT ![Depth] = [Top EXCEPT !.pos = close, !.hi = Max2(Top.hi, close)]]
-                 \o <<Frame(SubSeq(Top.txt, open + 1, close - 1), fn)>>
+                 \o <<Frame(SubSeq(Top.txt, open + 1, close - 1), fn, app)>>
 OpCall(fn) ==
     /\ Scanning /\ Cur = PCT /\ ~Top.sq /\ fn = CallName /\ fn # "none"
-    /\ CallPush(fn, Top.pos + 2 + Len(Claimed[fn]), ParenMatch(Top.txt, Top.pos + 3 + Len(Claimed[fn])))
+    /\ CallPush(fn, CallApp, Top.pos + 2 + CallLen, ParenMatch(Top.txt, Top.pos + 3 + CallLen))
     /\ Keep
 \* X: no matching parenthesis
 OpCallOpen == /\ Scanning /\ Cur = PCT /\ ~Top.sq /\ CallName # "none"
-              /\ ParenMatch(Top.txt, Top.pos + 3 + Len(Claimed[CallName])) = 0
+              /\ ParenMatch(Top.txt, Top.pos + 3 + CallLen) = 0
               /\ GiveUp("unterminated-call")
 \* X: a % that does not start a call of a claimed built-in (unknown name, "name )" syntax, % as last character)
 OpUnknownPercent == /\ Scanning /\ Cur = PCT /\ ~Top.sq /\ CallName = "none" /\ GiveUp("unknown-percent")
@@ -235,38 +244,55 @@ Builtin(fn, a, st) ==
                             st |-> IF n = 2 THEN PutVar(st, ws[1], ws[2]) ELSE st]
       [] fn = "random"  -> [ok |-> Splittable(a), st |-> st,                         \* S: "one of the words"
                             res |-> IF n = 0 THEN {<<>>} ELSE {ws[i] : i \in 1 .. n}]
+\* the application's built-ins (the harness registers functions of three kinds): 0 returns a copy of its argument,
+\* 1 returns NULL (nothing), 2 returns the constant "R"
+AppBuiltin(kind, a, st) == [ok |-> TRUE, st |-> st, res |-> {IF kind = 0 THEN a ELSE IF kind = 1 THEN <<>> ELSE <<82>>}]
 OpReturn ==
     /\ phase = "scan" /\ Depth > 1 /\ Finished(Top)
     /\ LET child == Top parent == stack[Depth - 1] IN
        IF Cardinality(child.outs) # 1 \/ child.trunc \/ child.pos < Len(child.txt)
        THEN GiveUp("argument-not-unique")
        ELSE LET a == CHOOSE o \in child.outs : TRUE
-                r == Builtin(child.fn, a, store) IN
+                r == IF child.fn = "app" THEN AppBuiltin(reg[child.app].kind, a, store) ELSE Builtin(child.fn, a, store) IN
             IF ~r.ok THEN GiveUp("argument-needs-word-grammar")
             ELSE IF Cardinality(r.res) > 1 /\ Depth > 2 THEN GiveUp("random-inside-argument")
             ELSE /\ stack' = SubSeq(stack, 1, Depth - 2) \o
                               <<[parent EXCEPT !.outs = {Cut(o \o w) : o \in parent.outs, w \in r.res},
                                                !.trunc = parent.trunc \/ \E o \in parent.outs, w \in r.res : Len(o) + Len(w) > Limit]>>
-                 /\ store' = r.st /\ store0' = store0 /\ phase' = phase /\ envid' = envid
+                 /\ store' = r.st /\ store0' = store0 /\ phase' = phase /\ envid' = envid /\ reg' = reg
 
 \* the final step: the edge (store0, env, text) -> (acceptable results, store)
 OpFinish ==
     /\ phase = "scan" /\ Depth = 1 /\ Finished(Top)
     /\ LET tr == Top.trunc \/ Top.pos < Len(Top.txt) IN
        IF tr /\ Cardinality(Top.outs) > 1 THEN GiveUp("alternatives-at-limit")
-       ELSE /\ phase' = "idle" /\ stack' = <<>> /\ store' = store /\ store0' = store0 /\ envid' = envid
+       ELSE /\ phase' = "idle" /\ stack' = <<>> /\ store' = store /\ store0' = store0 /\ envid' = envid /\ reg' = reg
             /\ Obs("expand", <<envid, Top.txt>>, [claimed |-> TRUE, why |-> "", outs |-> Top.outs, trunc |-> tr], store)
 
-Init == store = <<>> /\ store0 = <<>> /\ phase = "idle" /\ envid = 0 /\ stack = <<>>
+\* Lifecycle: between two expansions the application registers one more built-in.  Whatever the implementation keeps about
+\* earlier calls (caches, table positions) must survive this: every later expansion is still the function of text, environment,
+\* store and the CURRENT table.  C: names are lower-case words, distinct from each other and from the core names.
+RegNameOK(nm, rg) == /\ nm # <<>> /\ \A k \in 1 .. Len(nm) : NameChar(nm[k]) /\ Lower(nm[k]) = nm[k]
+                 /\ \A fn \in FnNames : Claimed[fn] # nm
+                 /\ nm \notin {NmExec, NmDirscan}
+                 /\ \A i \in 1 .. Len(rg) : rg[i].name # nm
+OpRegister(nm, kind) ==
+    /\ phase = "idle" /\ RegNameOK(nm, reg) /\ kind \in 0 .. 2
+    /\ reg' = Append(reg, [name |-> nm, kind |-> kind])
+    /\ UNCHANGED <<store, store0, phase, envid, stack>>
+    /\ Obs("register", <<nm, kind>>, [claimed |-> TRUE, why |-> "", outs |-> {}, trunc |-> FALSE], store)
+
+Init == store = <<>> /\ store0 = <<>> /\ phase = "idle" /\ envid = 0 /\ stack = <<>> /\ reg = <<>>
 
 Scan == \/ OpPlain \/ OpTilde \/ OpEscape \/ OpEscapeInSingle \/ OpEscapeAtEnd \/ OpDollarInSingle
         \/ \E form \in {"bare", "brace", "paren"} : OpEnvRef(form)
         \/ OpEnvRefOpen
         \/ \E kind \in {"double", "single"} : OpQuote(kind)
         \/ OpSingleInDouble
-        \/ \E fn \in FnNames : OpCall(fn)
+        \/ \E fn \in FnNames \cup {"app"} : OpCall(fn)
         \/ OpCallOpen \/ OpUnknownPercent \/ OpPercentInSingle \/ OpReturn \/ OpFinish
-Next == \/ phase = "idle" /\ \E s \in Starts(store) : OpStart(s[1], s[2])
+Next == \/ phase = "idle" /\ \E s \in Starts(store, reg) : OpStart(s[1], s[2])
+        \/ phase = "idle" /\ Len(reg) < Len(RegOffer) /\ OpRegister(RegOffer[Len(reg) + 1].name, RegOffer[Len(reg) + 1].kind)
         \/ Scan
 Spec == Init /\ [][Next]_vars
 
@@ -312,5 +338,9 @@ PutThenGet == [][ store' # store =>
         /\ Len(store') = Len(store) + (IF Has(store, k) THEN 0 ELSE 1)
         /\ Sorted(store') ]_vars
 \* queries never change the store
+\* registering never disturbs what is there: store and earlier table entries (and their positions) are unchanged
+RegisterOnlyAppends == [][ reg' # reg => /\ phase = "idle" /\ phase' = "idle" /\ store' = store
+                                         /\ Len(reg') = Len(reg) + 1 /\ SubSeq(reg', 1, Len(reg)) = reg
+                                         /\ \A i \in 1 .. Len(reg) : reg[i].name # reg'[Len(reg')].name ]_vars
 StoreChangesOnlyOnReturn == [][ store' # store => (phase = "scan" /\ Depth > 1 /\ Top.fn = "put") ]_vars
 ================================================================================
